@@ -780,7 +780,15 @@ pub fn gen_c09_dec(rng: &mut Rng, i: u64, tier: Tier) -> Script {
         0 => rng.range(600, 5000),
         _ => rng.range(0, 400),
     };
-    let vs = valid_stream(rng, true, target, 32768, None);
+    let mut vs = valid_stream(rng, true, target, 32768, None);
+    if rng.chance(1, 25) {
+        // a frame whose plaintext has a special Adler-32 (0, 1, a zero half): the trailer is still verified
+        let (ta, tb) = gen::adler_special(rng);
+        let pl = rng.pick(&[0usize, 20, 400]);
+        let p = gen::adler_target(rng, ta, tb, pl);
+        let bytes = miniz_oxide::deflate::compress_to_vec_zlib(&p, rng.pick(&[0u8, 1, 6]));
+        vs = ValidStream { enc_len: bytes.len(), plain_len: p.len(), max_dist: 32768, cinfo: 7, bytes, foreign: false };
+    }
     let n = vs.bytes.len();
     match rng.below(10) {
         0..=4 => {
